@@ -23,30 +23,34 @@ const Bech32Prefix = "goat"
 
 
 // Key is a deterministic secp256k1 identity (validator, relayer member or plain account).
+// Public key, address and uncompressed form are computed once.
 type Key struct {
 	Name string
 	Priv *secp256k1.PrivKey
+	pub  *secp256k1.PubKey
+	addr sdk.AccAddress
+	unc  [64]byte
 }
 
 func NewKey(name string) Key {
-	return Key{Name: name, Priv: secp256k1.GenPrivKeyFromSecret([]byte("verif/" + name))}
-}
-
-func (k Key) Pub() *secp256k1.PubKey  { return k.Priv.PubKey().(*secp256k1.PubKey) }
-func (k Key) Addr() sdk.AccAddress    { return sdk.AccAddress(k.Priv.PubKey().Address()) }
-func (k Key) AddrStr() string         { return k.Addr().String() }
-func (k Key) EthAddr() common.Address { return common.BytesToAddress(k.Addr()) }
-
-// Uncompressed returns the 64-byte X||Y form used in goat-geth's CreateRequest.
-func (k Key) Uncompressed() [64]byte {
-	pk, err := btcec.ParsePubKey(k.Pub().Key)
+	k := Key{Name: name, Priv: secp256k1.GenPrivKeyFromSecret([]byte("verif/" + name))}
+	k.pub = k.Priv.PubKey().(*secp256k1.PubKey)
+	k.addr = sdk.AccAddress(k.pub.Address())
+	pk, err := btcec.ParsePubKey(k.pub.Key)
 	if err != nil {
 		panic(err)
 	}
-	var out [64]byte
-	copy(out[:], pk.SerializeUncompressed()[1:])
-	return out
+	copy(k.unc[:], pk.SerializeUncompressed()[1:])
+	return k
 }
+
+func (k Key) Pub() *secp256k1.PubKey  { return k.pub }
+func (k Key) Addr() sdk.AccAddress    { return k.addr }
+func (k Key) AddrStr() string         { return k.addr.String() }
+func (k Key) EthAddr() common.Address { return common.BytesToAddress(k.addr) }
+
+// Uncompressed returns the 64-byte X||Y form used in goat-geth's CreateRequest.
+func (k Key) Uncompressed() [64]byte { return k.unc }
 
 // SignECDSA64 signs a 32-byte digest and returns the 64-byte r||s form goat expects.
 func (k Key) SignECDSA64(digest []byte) []byte {
